@@ -2,9 +2,10 @@
 import re
 
 from .. import lib, mir
-from ..mir import render
+from .. import lib_sec as S
+from ..mir import render, strip_generics
 
-EXPLANATION = ("Transport::do_dial: constants 32/16/16; `resolve` is called only on the not-at-limit edge of dns_lookups (unit increments from 0, "
+EXPLANATION = ("the dial coroutine (found by role: the async body reached from <Transport as libp2p_core::Transport>::dial that calls resolve): constants 32/16/16; `resolve` is called only on the not-at-limit edge of dns_lookups (unit increments from 0, "
                "incremented on every path to resolve); after an accepted dial attempt the next inner dial is reachable only through the "
                "not-at-limit edge of dial_attempts; the inner transport is dialled only when the address contains no Dns/Dns4/Dns6/Dnsaddr "
                "component (closure table over all Protocol variants); /dnsaddr results are queued only if they end with the original suffix "
@@ -13,6 +14,10 @@ EXPLANATION = ("Transport::do_dial: constants 32/16/16; `resolve` is called only
 ASSUMPTIONS = ["hickory resolver internals; Multiaddr::replace/ends_with semantics"]
 D = "libp2p_dns"
 
+SELFTEST = [
+    {"mutation": "`dns_lookups += 1` deleted / `dial_attempts += 1` deleted", "caught_by": "lookups/floor:dns_lookups increment, attempts/floor:dial_attempts increment (+ the counting rules)"},
+    {"neutral": "neutral/sec/10 (do_dial renamed); counters / work list renamed; `MAX_DNS_LOOKUPS == dns_lookups`, `MAX_TXT_RECORDS > n`", "silent": True},
+]
 
 def check(ctx):
     prog = ctx.prog
@@ -20,17 +25,24 @@ def check(ctx):
     md = prog.const(D, r"^libp2p_dns::MAX_DIAL_ATTEMPTS$").get("v")
     mt = prog.const(D, r"^libp2p_dns::MAX_TXT_RECORDS$").get("v")
     ctx.ob("const", "MAX_DNS_LOOKUPS=32, MAX_DIAL_ATTEMPTS=16, MAX_TXT_RECORDS=16", (ml, md, mt) == (32, 16, 16), msg=str((ml, md, mt)))
-    c = ctx.body(D, r"Transport::do_dial::\{closure#0\}$", "coroutine")
+    c = dial_coroutine(ctx)
     res = c.call_sites(r"^libp2p_dns::resolve$")
     ctx.floor("lookups", "resolve call", res, 1)
     pop = c.call_sites(r"SmallVec::pop$")
     ctx.floor("lookups", "unresolved.pop (loop head)", pop, 1)
+    # variables by role: the counters are the locals compared with the limit constants; the work list is the SmallVec popped at the loop head
+    l = counter_of(ctx, c, ml, r"MAX_DNS_LOOKUPS$", "dns_lookups")
+    la = counter_of(ctx, c, md, r"MAX_DIAL_ATTEMPTS$", "dial_attempts")
+    ln = counter_of(ctx, c, mt, r"MAX_TXT_RECORDS$", "n")
+    wl = S.peel(c.site_expr(pop[0])[2][0]) if pop else ("unknown", "")
+    if wl[0] == "local":
+        S.canon_local(c, wl[1], "unresolved")
     for s in res:
         lib.limit_guard(ctx, "lookups", "lookup only below MAX_DNS_LOOKUPS", s, r"^dns_lookups$", r"^const:libp2p_dns::MAX_DNS_LOOKUPS$", "dns_lookups < MAX_DNS_LOOKUPS (unit increments from 0)", unit_increment=True)
-    l = lib.local_by_name(c, "dns_lookups")
     defs = [render(c.rvalue_expr(d[3])) for d in c.defs[l] if d[0] == "stmt"]
     ctx.ob("lookups", "counter starts at 0 and only ever +1", sorted(defs) == ["0", "AddWithOverflow(dns_lookups, 1).0"], msg=str(defs))
     inc = [mir.Site(c, d[1], d[2]) for d in c.defs[l] if d[0] == "stmt" and "AddWithOverflow" in render(c.rvalue_expr(d[3]))]
+    ctx.floor("lookups", "dns_lookups increment", inc, 1)
     if inc and res and pop:
         # within one loop iteration: every path from the loop head to resolve passes the increment; and the guard test lies between head and increment
         ctx.passes("lookups", "every lookup is counted", c, c.succ[pop[0].bb], lib.bbs(res), lib.bbs(inc), "dns_lookups += 1 before resolve()", inc[0].loc())
@@ -44,17 +56,18 @@ def check(ctx):
     # ---- dial attempts
     dial = c.call_sites(r"libp2p_core::Transport::dial$|Transport>::dial$")
     ctx.floor("attempts", "inner dial", dial, 1)
-    la = lib.local_by_name(c, "dial_attempts")
     defs = [render(c.rvalue_expr(d[3])) for d in c.defs[la] if d[0] == "stmt"]
     ctx.ob("attempts", "counter starts at 0 and only ever +1", sorted(defs) == ["0", "AddWithOverflow(dial_attempts, 1).0"], msg=str(defs))
     inca = [mir.Site(c, d[1], d[2]) for d in c.defs[la] if d[0] == "stmt" and "AddWithOverflow" in render(c.rvalue_expr(d[3]))]
+    ctx.floor("attempts", "dial_attempts increment", inca, 1)          # fail closed: the obligations below quantify over the increment sites
     if inca and dial:
         good, weak = lib.strict_limit_edges(c, r"^dial_attempts$", r"^const:libp2p_dns::MAX_DIAL_ATTEMPTS$", True)
         r = c.reachable(c.succ[inca[0].bb], blocked_edges=good)
         ctx.ob("attempts", "after an accepted attempt the next dial requires attempts < MAX_DIAL_ATTEMPTS", bool(good) and dial[0].bb not in r, inca[0].loc(),
                "every path from `dial_attempts += 1` back to inner.dial passes the not-at-limit edge" if dial[0].bb not in r else
                "a path reaches the next inner.dial without the limit test" + (" (only a non-strict `>` guard exists)" if weak else ""))
-        ok_edges = lib.switch_edges_on_site(c, dial[0], {"Ok"}, r"^discr\(libp2p_core::Transport::dial\(")
+        ok_edges = S.call_outcome_edges(c, dial[0], close=False)[0]
+        ctx.ob("attempts", "floor:accepted-attempt edge", len(ok_edges) >= 1, nontrivial=False, msg=str(sorted(ok_edges)))
         for _, t in ok_edges:
             # the increment happens on every accepted attempt before the future is awaited
             yields = [bi for bi in c.live if c.blocks[bi]["term"] and c.blocks[bi]["term"]["k"] == "yield"]
@@ -62,43 +75,66 @@ def check(ctx):
             fut_poll = [s.bb for s in c.call_sites(r"Future>::poll$|Future::poll$") if s.bb in c.reachable([t])]
             ctx.ob("attempts", "every accepted attempt is counted before it is awaited", not (set(fut_poll[:1]) & rr), inca[0].loc(), "dial_attempts += 1 on the Ok(fut) edge before polling it")
     # ---- no DNS component reaches the inner transport
-    finds = [bi for bi in c.live if c.switch_info(bi) and render(c.switch_info(bi)[0]).startswith("discr(std::iter::Iterator::find(std::iter::Iterator::enumerate(libp2p_core::Multiaddr::iter(")]
+    def popped(e):
+        """e is the address popped from the work list at the loop head"""
+        e = S.peel(S.norm(e))
+        return e[0] == "call" and e[1] == "ok" and e[2][0][0] == "call" and re.search(r"SmallVec::pop$", strip_generics(e[2][0][1])) is not None
+
+    def is_search(v):
+        return (v[0] == "call" and re.search(r"Iterator::find$|Iterator>::find$|Iterator::position$", strip_generics(v[1])) is not None
+                and S.has(v[2][0], lambda x: x[0] == "call" and re.search(r"Multiaddr::iter$", strip_generics(x[1])) is not None and popped(x[2][0])))
+    finds = [bi for bi in c.live if c.switch_info(bi) and c.switch_info(bi)[0][0] == "discr" and any(is_search(v) for v in S.tested_values(c.switch_info(bi)[0])[0])]
     ctx.floor("no-dns", "DNS component search", finds, 1)
+    _, resolved = S.outcome_edges(c, is_search)
     for s in dial:
-        ctx.guarded("no-dns", "inner dial only for fully resolved addresses", s, lambda cc, r, ll: ll == "None" and r.startswith("discr(std::iter::Iterator::find(std::iter::Iterator::enumerate(libp2p_core::Multiaddr::iter("), "no Dns* component found")
-        e = render(c.site_expr(s))
-        ctx.ob("no-dns", "the searched address is the dialled address", "SmallVec::pop(" in e.split(", ")[1] if ", " in e else False, s.loc(), e[:260])
+        S.guarded(ctx, "no-dns", "inner dial only for fully resolved addresses", s, resolved, "no Dns* component found")
+        a = c.site_expr(s)[2]
+        ctx.ob("no-dns", "the searched address is the dialled address", len(a) >= 2 and popped(S.expand(c, a[1])), s.loc(), S.nrender(c.site_expr(s))[:260])
     for bi in finds:
         cl = lib.closure_of(prog, c, c.switch_info(bi)[0])
         vs = lib.matches_variants(cl) if cl else None
         ctx.ob("no-dns", "search matches exactly {Dns, Dns4, Dns6, Dnsaddr}", vs == {"Dns", "Dns4", "Dns6", "Dnsaddr"}, cl and "%s:%d" % (cl.file, cl.line) or "", str(vs))
-        cond = render(c.switch_info(bi)[0])
-        ctx.ob("no-dns", "search runs over the popped address", "SmallVec::pop(" in cond, msg=cond[:200])
+        ctx.ob("no-dns", "search runs over the popped address", any(is_search(v) for v in S.tested_values(c.switch_info(bi)[0])[0]), msg=S.nrender(c.switch_info(bi)[0])[:200])
     # ---- dnsaddr suffix + fan-out
-    pushes = [s for s in c.call_sites(r"SmallVec::push$") if render(c.site_expr(s)[2][0]) == "unresolved"]
-    chain = [s for s in pushes if "Iterator::chain(" in render(c.site_expr(s))]
+    pushes = [s for s in c.call_sites(r"SmallVec::push$") if wl[0] == "local" and S.is_local(S.peel(c.site_expr(s)[2][0]), wl[1])]
+    chain = [s for s in pushes if S.has_call(c.site_expr(s), r"Iterator::chain$")]
     ctx.floor("dnsaddr", "push of a /dnsaddr result", chain, 1)
+    suffix_ok, _ = S.truth_edges(c, lambda x: x[0] == "call" and re.search(r"Multiaddr::ends_with$", strip_generics(x[1])) is not None)
     for s in chain:
-        ctx.guarded("dnsaddr", "queued only if it ends with the original suffix", s, lambda cc, r, ll: ll == "true" and r.startswith("libp2p_core::Multiaddr::ends_with("), "a.ends_with(&suffix)")
+        S.guarded(ctx, "dnsaddr", "queued only if it ends with the original suffix", s, suffix_ok, "a.ends_with(&suffix)")
         lib.limit_guard(ctx, "dnsaddr", "at most MAX_TXT_RECORDS per lookup", s, r"^n$", r"^const:libp2p_dns::MAX_TXT_RECORDS$", "n < MAX_TXT_RECORDS")
-    ew = [bi for bi in c.live if c.switch_info(bi) and render(c.switch_info(bi)[0]).startswith("libp2p_core::Multiaddr::ends_with(")]
-    mir.RENDER_MAX[0] = 30
+    def _unnot(x):
+        while x[0] == "un" and x[1] == "Not":
+            x = x[2]
+        return x
+    ew = [bi for bi in sorted(c.live) if c.switch_info(bi) and _unnot(c.switch_info(bi)[0])[0] == "call" and re.search(r"Multiaddr::ends_with$", strip_generics(_unnot(c.switch_info(bi)[0])[1]))]
+    ctx.floor("dnsaddr", "ends_with test", ew, 1)
     for bi in ew:
         cond = c.switch_info(bi)[0]
-        a1 = render(cond[2][1])
-        ctx.ob("dnsaddr", "suffix = components after the resolved one (skip(i + 1))", re.search(r"Iterator::skip\(libp2p_core::Multiaddr::iter\(.*SmallVec::pop\(unresolved\)@Some\.0\), AddWithOverflow\(.*@Some\.0\.0, 1\)\.0\)", a1) is not None,
-               "%s:%d" % (c.file, c.blocks[bi]["term"].get("l", 0)), a1[:300])
-        a0 = render(cond[2][0])
-        ctx.ob("dnsaddr", "tested address is the TXT result", "Iterator>::next(iter)@Some.0" in a0, msg=a0[:120])
-    mir.RENDER_MAX[0] = 14
-    ln = lib.local_by_name(c, "n")
+        while cond[0] == "un":
+            cond = cond[2]
+        suf = S.norm(S.expand(c, cond[2][1]))
+        sk = S.calls(suf, r"Iterator::skip$")
+        ok = False
+        if sk:
+            it, nsk = sk[0][2][0], sk[0][2][1]
+            plus = nsk[1] if nsk[0] == "field" and nsk[2] == "0" else nsk
+            idx = None
+            if plus[0] == "bin" and plus[1] in ("AddWithOverflow", "Add"):
+                idx = plus[2] if S.cval(plus[3]) == 1 else (plus[3] if S.cval(plus[2]) == 1 else None)
+            ok = (idx is not None and idx[0] == "field" and idx[2] == "0" and idx[1][0] == "call" and idx[1][1] == "ok" and is_search(idx[1][2][0])
+                  and it[0] == "call" and re.search(r"Multiaddr::iter$", strip_generics(it[1])) is not None and popped(it[2][0]))
+        ctx.ob("dnsaddr", "suffix = components after the resolved one (skip(i + 1))", ok, "%s:%d" % (c.file, c.blocks[bi]["term"].get("l", 0)), render(suf)[:300])
+        a0 = S.norm(cond[2][0])
+        ctx.ob("dnsaddr", "tested address is the TXT result", S.has(a0, lambda x: x[0] == "call" and x[1] == "ok" and x[2][0][0] == "call" and re.search(r"Iterator>?::next$", strip_generics(x[2][0][1])) is not None), msg=render(a0)[:120])
     defs = [render(c.rvalue_expr(d[3])) for d in c.defs[ln] if d[0] == "stmt"]
     ctx.ob("dnsaddr", "per-lookup counter starts at 0 and only ever +1", sorted(defs) == ["0", "AddWithOverflow(n, 1).0"], msg=str(defs))
     # replaced component index originates from the search
     reps = c.call_sites(r"Multiaddr::replace$")
     for s in reps:
-        e = render(c.site_expr(s))
-        ctx.ob("dnsaddr", "resolved IP replaces the component that was looked up", "SmallVec::pop(" in e and "@Some.0.0, closure:" in e, s.loc(), e[:200])
+        a = [S.norm(x) for x in c.site_expr(s)[2]]
+        ok = (len(a) >= 2 and popped(a[0]) and a[1][0] == "field" and a[1][2] == "0" and a[1][1][0] == "call" and a[1][1][1] == "ok" and is_search(a[1][1][2][0]))
+        ctx.ob("dnsaddr", "resolved IP replaces the component that was looked up", ok, s.loc(), render(S.norm(c.site_expr(s)))[:200])
     # ---- panic inventory
     entries = [c, ctx.body(D, r"^libp2p_dns::resolve$"), ctx.body(D, r"^libp2p_dns::parse_dnsaddr_txt$")]
     inv, seen = lib.panic_inventory(prog, D, entries, depth=1)
@@ -106,8 +142,68 @@ def check(ctx):
     for b, k, det, s in unw:
         r = render(b.site_expr(s))
         # allowed: expect() on Multiaddr::replace(addr, i, ..) where i is the index found by enumerate().find() over that address
-        ok = re.search(r"expect\(libp2p_core::Multiaddr::replace\(smallvec::SmallVec::pop\(.*\)@Some\.0, .*@Some\.0\.0, closure:", r) is not None
+        e0 = b.site_expr(s)[2][0] if b is c and b.site_expr(s)[2] else ("unknown", "")
+        ra = [S.norm(x) for x in e0[2]] if e0[0] == "call" and re.search(r"Multiaddr::replace$", strip_generics(e0[1])) else []
+        ok = (len(ra) >= 2 and popped(ra[0]) and ra[1][0] == "field" and ra[1][2] == "0" and ra[1][1][0] == "call" and ra[1][1][1] == "ok" and is_search(ra[1][1][2][0]))
         ctx.ob("nopanic", "expect/unwrap only on locally established facts", ok, s.loc(), "%s in %s: %s" % (det, b.short[-50:], r[-120:]))
     rest = [(b, k, det, s) for b, k, det, s in inv if k != "unwrap"]
     lib.check_inventory(ctx, "nopanic", "dial path", rest, {}, seen)
     ctx.ob("nopanic", "floor:index-validity expects", len([1 for b, k, det, s in unw if "Multiaddr::replace(" in render(b.site_expr(s))]) == 2, nontrivial=False, msg="%d expect sites" % len(unw))
+
+
+def dial_coroutine(ctx):
+    """The async body that performs the resolving dial, located by role: the coroutine of libp2p-dns that calls `resolve` and
+    whose enclosing method is called from `<Transport as libp2p_core::Transport>::dial` (whatever that private method is named)."""
+    prog = ctx.prog
+    cands = [b for b in prog.bodies(D) if b.kind == "coroutine" and b.call_sites(r"^libp2p_dns::resolve$")]
+    if len(cands) != 1:
+        raise mir.RuleError("dial coroutine of libp2p_dns: expected 1 coroutine calling resolve, found %d %s" % (len(cands), [b.npath for b in cands][:4]))
+    c = cands[0]
+    ctx.use(c)
+    entry = ctx.body(D, r"<Transport as libp2p_core::Transport>::dial$")
+    parent = mir.strip_generics(c.parent or "")
+    called = {mir.strip_generics(entry.call_name(s.term)) for s in entry.call_sites()}
+    ctx.ob("anchor", "the resolving dial is what Transport::dial returns", parent in called, "%s:%d" % (c.file, c.line), "Transport::dial calls %s" % parent.split("::")[-1], nontrivial=False)
+    return c
+
+
+def counter_of(ctx, c, value, const_pat, canon):
+    """The user variable that the code compares with the limit constant (read from the comparison's raw operands, so it is
+    found even if it is never modified): returns its index and renders it under the canonical name."""
+    hits = set()
+    for bi in c.live:
+        t = c.blocks[bi]["term"]
+        if not t or t["k"] != "switch" or t["o"].get("k") not in ("copy", "move") or "pr" in t["o"]["p"]:
+            continue
+        ds = c.defs.get(t["o"]["p"]["l"], [])
+        if len(ds) != 1 or ds[0][0] != "stmt":
+            continue
+        r = ds[0][3]
+        if r["k"] == "un" and r["op"] == "Not" and r["a"].get("k") in ("copy", "move") and "pr" not in r["a"]["p"]:
+            ds = c.defs.get(r["a"]["p"]["l"], [])
+            if len(ds) != 1 or ds[0][0] != "stmt":
+                continue
+            r = ds[0][3]
+        if r["k"] != "bin" or r["op"] not in ("Eq", "Ne", "Lt", "Le", "Gt", "Ge"):
+            continue
+        def root(o):
+            """the user variable an operand copies (through unnamed single-definition temporaries)"""
+            for _ in range(6):
+                if o.get("k") not in ("copy", "move") or "pr" in o["p"]:
+                    return None
+                l0 = o["p"]["l"]
+                if l0 in c.names and l0 > c.argc:
+                    return l0
+                d0 = c.defs.get(l0, [])
+                if len(d0) != 1 or d0[0][0] != "stmt" or d0[0][3]["k"] != "use":
+                    return None
+                o = d0[0][3]["o"]
+            return None
+        for x, y in ((r["a"], r["b"]), (r["b"], r["a"])):
+            if root(x) is not None and S.is_const(c.operand_expr(y), value, const_pat):
+                hits.add(root(x))
+    if len(hits) != 1:
+        raise mir.RuleError("counter compared with %s: %d candidates" % (const_pat, len(hits)))
+    l = next(iter(hits))
+    S.canon_local(c, l, canon)
+    return l
